@@ -5,6 +5,7 @@ mod absframe;
 mod c02;
 mod c06;
 mod c10;
+mod c12;
 mod c14;
 mod c15;
 mod c16;
@@ -79,6 +80,7 @@ fn main() {
         "c02" => c02::run(&a),
         "c06" => c06::run(&a),
         "c10" => c10::run(&a),
+        "c12" => c12::run(&a),
         "c14" => c14::run(&a),
         "c15" => c15::run(&a),
         "c16" => c16::run(&a),
